@@ -138,7 +138,7 @@ fn sched_from_ranges_2() {
     from_ranges_n::<2>()
 }
 
-//@H props=C14,C04 tier=thorough kind=bounded cap=3600 bound="3 input ranges" domain="bounds anywhere in 00:00..=48:00, all kinds, query minute 00:00..=48:00" mem=heavy
+//@H props=C14,C04 tier=deep kind=bounded cap=3600 bound="3 input ranges" domain="bounds anywhere in 00:00..=48:00, all kinds, query minute 00:00..=48:00" mem=heavy
 #[cfg_attr(kani, kani::proof)]
 #[cfg_attr(kani, kani::unwind(5))]
 #[cfg_attr(kani, kani::stub(core::slice::sort::unstable::sort, sort_model))]
